@@ -111,6 +111,7 @@ type Engine struct {
 	Stubs  map[string]*ssa.Function // qualified name -> replacement
 	Opaque map[string]bool          // package path -> calls return zero
 	NoInit map[string]bool
+	Pure   map[string]bool // functions evaluated per alternative of a finite-alphabet argument (lifting)
 	Embeds map[*ssa.Global][]byte
 	Cfg    Config
 
